@@ -30,7 +30,8 @@ CONSTANTS Vers,        \* subset of {"sasl","sasl2"}
           Mechs,       \* subset of {"PLAIN","DIGEST-MD5","ANONYMOUS","X-UNKNOWN"}
           Creds,       \* subset of {"right","wrongPw","otherUser","malformed","empty"}
           BindRes,     \* resources the client asks for
-          Kinds, Froms, Tos,   \* stanza alphabet
+          Kinds, Froms, Tos,   \* stanza alphabet ...
+          Stanzas,     \* ... and the <<kind, from, to>> triples a configuration uses (AllStanzas = all of them)
           MaxPending,  \* bound on outstanding checker replies
           MaxHist      \* bound on behaviour length (generator configurations only)
 
@@ -65,6 +66,14 @@ Challenge(v) == E(IF v = "sasl2" THEN "challenge2" ELSE "challenge")
 UserOf(cr) == IF cr = "otherUser" THEN Vic ELSE Att   \* whose name the credentials carry
 Right(cr)  == cr = "right"                              \* ... and whether the password is that user's
 
+AllStanzas == Kinds \X Froms \X Tos
+\* reduced alphabets for generator configurations (a .cfg cannot write tuples)
+CoreStanzas == {<<"message", "absent", "victimFull">>, <<"iq", "absent", "domain">>, <<"message", "victim", "victimFull">>}
+MidStanzas  == {"message", "iq"} \X {"absent", "own", "victim"} \X {"victimFull", "domain"}
+
+\* no exchange in progress: the fields describing one are back to their defaults
+Idle(c0) == [c0 EXCEPT !.st = "none", !.ver = "sasl", !.xuser = "", !.b2 = FALSE]
+
 C0 == [phase |-> "init", authed |-> "", res |-> "", st |-> "none", ver |-> "sasl", xuser |-> "", b2 |-> FALSE]
 
 Init ==
@@ -82,7 +91,7 @@ Step(h, c2, p2, r2, a2, o, d, s) ==
 
 \* the server ends the stream: XmppSocket::disconnectFromHost, then _q_clientDisconnected
 CloseWith(h, o) ==
-    Step(h, [c EXCEPT !.phase = "closed", !.st = "none"], pending,
+    Step(h, [Idle(c) EXCEPT !.phase = "closed"], pending,
          routes \ {J(c.authed, c.res)}, approved, o \o <<E("close")>>, <<>>,
          IF c.authed # "" THEN <<[s |-> "disconnected", j |-> J(c.authed, c.res)]>> ELSE <<>>)
 
@@ -94,7 +103,7 @@ NotAuthorized(h) == CloseWith(h, <<E("streamerror")>>)
 Accept(h, u, p2) ==
     LET bind == c.ver = "sasl2" /\ c.b2
         r2   == IF bind THEN B2Res ELSE ""
-        c2   == [c EXCEPT !.authed = u, !.res = r2, !.st = "none"]
+        c2   == [Idle(c) EXCEPT !.authed = u, !.res = r2]
     IN Step(h, c2, p2, IF bind THEN routes \cup {J(u, r2)} ELSE routes, approved \cup {u},
             IF c.ver = "sasl2"
             THEN <<El("success2", IF bind THEN "bound" ELSE "", J(u, r2)), El("features", "post", NoJ)>>
@@ -108,7 +117,7 @@ Open(dom) ==
     /\ c.phase \in {"init", "open"}
     /\ IF dom = "wrong"
        THEN CloseWith(h, <<E("header"), E("streamerror")>>)
-       ELSE Step(h, [c EXCEPT !.phase = "open", !.st = "none"], StaleAll(pending), routes, approved,
+       ELSE Step(h, [Idle(c) EXCEPT !.phase = "open"], StaleAll(pending), routes, approved,
                  <<E("header"), El("features", IF c.authed = "" THEN "mechs" ELSE "post", NoJ)>>, <<>>, <<>>)
 
 (* --- <auth/> / <authenticate/> ------------------------------------------- *)
@@ -167,7 +176,7 @@ Reply(i) ==
     /\ CASE e.stale -> Step(h, c, p2, routes, approved, <<>>, <<>>, <<>>)     \* intended: not this exchange's reply
          [] ~e.stale /\ e.op = "check" /\ e.ok  -> Accept(h, e.user, p2)
          [] ~e.stale /\ e.op = "check" /\ ~e.ok ->
-                Step(h, [c EXCEPT !.phase = "closed", !.st = "none"], p2, routes \ {J(c.authed, c.res)}, approved,
+                Step(h, [Idle(c) EXCEPT !.phase = "closed"], p2, routes \ {J(c.authed, c.res)}, approved,
                      <<Fail(c.ver), E("close")>>, <<>>,
                      IF c.authed # "" THEN <<[s |-> "disconnected", j |-> J(c.authed, c.res)]>> ELSE <<>>)
          [] ~e.stale /\ e.op = "digest" /\ e.ok /\ c.st = "digestCheck" ->
@@ -175,7 +184,7 @@ Reply(i) ==
                 Step(h, [c EXCEPT !.st = "digestFinal", !.xuser = e.user], p2, routes, approved \cup {e.user},
                      <<Challenge(c.ver)>>, <<>>, <<>>)
          [] ~e.stale /\ e.op = "digest" /\ ~(e.ok /\ c.st = "digestCheck") ->
-                Step(h, [c EXCEPT !.phase = "closed", !.st = "none"], p2, routes \ {J(c.authed, c.res)}, approved,
+                Step(h, [Idle(c) EXCEPT !.phase = "closed"], p2, routes \ {J(c.authed, c.res)}, approved,
                      <<Fail(c.ver), E("close")>>, <<>>,
                      IF c.authed # "" THEN <<[s |-> "disconnected", j |-> J(c.authed, c.res)]>> ELSE <<>>)
 
@@ -186,7 +195,7 @@ Abort(v) ==
     /\ IF v = "sasl"
        THEN Step(h, c, pending, routes, approved, <<>>, <<>>, <<>>)       \* not handled by the server at all
        ELSE IF c.st # "none" /\ c.ver = "sasl2"
-            THEN Step(h, [c EXCEPT !.st = "none"], StaleAll(pending), routes, approved, <<Fail(v)>>, <<>>, <<>>)
+            THEN Step(h, Idle(c), StaleAll(pending), routes, approved, <<Fail(v)>>, <<>>, <<>>)
             ELSE Step(h, c, pending, routes, approved, <<Fail(v)>>, <<>>, <<>>)
 
 (* --- resource binding, session --------------------------------------------- *)
@@ -231,7 +240,7 @@ Next ==
     \/ \E v \in Vers : Abort(v)
     \/ \E r \in BindRes : Bind(r)
     \/ Session
-    \/ \E k \in Kinds, f \in Froms, t \in Tos : Stanza(k, f, t)
+    \/ \E z \in Stanzas : Stanza(z[1], z[2], z[3])
 
 Spec == Init /\ [][Next]_vars
 
@@ -263,6 +272,11 @@ RoutedStamped      == [][P_Routed(dlv', c.authed, c.res)]_vars
 RoutesOwn          == \A j \in routes : j = J(Vic, VicRes) \/ (j.u \in approved /\ j.d = Domain)
 \* the identity changes only by completing an approved exchange
 IdentityByApproval == [][c'.authed # c.authed => (c'.authed \in approved' /\ hist'[Len(hist')].a \in {"Reply", "Response"})]_vars
+
+\* re-initialisation used by the trace specification at an execution boundary
+Reinit ==
+    /\ c' = C0 /\ pending' = <<>> /\ routes' = {J(Vic, VicRes)} /\ approved' = {} /\ proved' = {}
+    /\ out' = <<>> /\ dlv' = <<>> /\ sig' = <<>> /\ hist' = <<>>
 
 Bound == Len(hist) <= MaxHist
 View  == mvars      \* hist and the outputs of the last step are observation variables: hidden from state identity
